@@ -98,9 +98,9 @@ HELPERS = ["restriction", "linear_restrict", "restricted_function", "linear_comp
 
 def shards(tier, seed):
     n = 16
-    trees = {"quick": 400, "thorough": 9000}[tier]
-    helpers = {"quick": 20, "thorough": 700}[tier]
-    symbolic = {"quick": 12, "thorough": 200}[tier]
+    trees = {"quick": 900, "thorough": 9000}[tier]
+    helpers = {"quick": 45, "thorough": 700}[tier]
+    symbolic = {"quick": 20, "thorough": 200}[tier]
     return [{"seed": subseed(seed, PID, i), "n_trees": trees, "n_helper": helpers, "n_symbolic": symbolic,
              "budget_s": {"quick": 300, "thorough": 2600}[tier]} for i in range(n)]
 
@@ -1444,7 +1444,38 @@ def run_discipline(case, rep):
 
 
 # =========================================================================== symbolic sub-workload (operator makers)
+class _SymTimeCap(Exception):
+    pass
+
+
 def _sym_equal(a, b, rep=None):
+    """Time-capped symbolic equality: sympy.cancel is occasionally pathological on large rational expressions.
+
+    A comparison that is not decided within the cap is *undecided* (None: never a violation), and counted.
+    """
+    import signal
+    import threading
+
+    if threading.current_thread() is not threading.main_thread():
+        return _sym_equal_raw(a, b, rep)
+
+    def _raise(signum, frame):
+        raise _SymTimeCap
+
+    old = signal.signal(signal.SIGALRM, _raise)
+    signal.setitimer(signal.ITIMER_REAL, 4.0)
+    try:
+        return _sym_equal_raw(a, b, rep)
+    except _SymTimeCap:
+        if rep is not None:
+            rep.count("symbolic_equality_undecided_time_cap")
+        return None
+    finally:
+        signal.setitimer(signal.ITIMER_REAL, 0.0)
+        signal.signal(signal.SIGALRM, old)
+
+
+def _sym_equal_raw(a, b, rep=None):
     import sympy as sp
 
     d = sp.sympify(a) - sp.sympify(b)
